@@ -12,6 +12,7 @@ import (
 	"github.com/gobuffalo/plush/v5/helpers/hctx"
 	"github.com/gobuffalo/plush/v5/helpers/text"
 
+	"verifharness/ent"
 	"verifharness/vrt"
 )
 
@@ -117,7 +118,7 @@ func TruncateTemplate() {
 	vrt.Assert(err == nil, "truncate through a template renders")
 	want := text.Truncate(s, hctx.Map{"size": size, "trail": "~"})
 	truncateLaws(s, size, "~", want)
-	vrt.Assert(got == htmlEsc(want), "the template form yields the same string (escaped by the sink)")
+	vrt.Assert(ent.Same(got, func() string { return ent.Esc(want) }), "the template form yields the same string (escaped by the sink)")
 }
 
 // decodesTo: none of < > ' " raw, every & starts an entity, decoding gives p
